@@ -497,6 +497,49 @@ static char *make_string(rng_t *r, int cls, size_t *len_out) {
     return s;
 }
 
+/* C17 (closed source): jls_copy must succeed and the copy must read back like the source */
+static void copy_check(const char *path, rng_t *r) {
+    const char *cp = v_path("copy-of.jls");
+    v_api("jls_copy");
+    int32_t rc = jls_copy(path, cp, NULL, NULL, NULL, NULL);
+    v_api("");
+    char key[96];
+    if (rc) { snprintf(key, sizeof(key), "copy-error|rc=%d|closed", rc); v_violation("C17", key, NULL, "jls_copy of a readable closed file returned %d", rc); }
+    else {
+        decode_and_compare(cp, NULL, "C17", "copy", 0);
+        dump_t du, dc; uint64_t ds = rng_u64(r);
+        dump_file(path, &du, ds); dump_file(cp, &dc, ds);
+        /* signals with omitted blocks in the source: jls_copy re-writes those blocks as gaps (known finding,
+         * reported once per file under its own key); every other signal is compared in full */
+        uint8_t has_omitted[256]; memset(has_omitted, 0, sizeof(has_omitted));
+        int any_omitted = 0;
+        {
+            jd_t sd;
+            if (!jd_load(&sd, path)) {
+                jd_decode(&sd);
+                for (int s = 1; s < 256; ++s) {
+                    const jd_list_t *il = &sd.sig[s].index[JD_TT_FSR][1];
+                    for (size_t k = 0; k < il->n; ++k) {
+                        const jd_chunk_t *ic = &sd.ch[il->idx[k]];
+                        if (ic->plen < 16) continue;
+                        uint32_t cnt; memcpy(&cnt, ic->payload + 8, 4);
+                        for (uint32_t e = 0; e < cnt && 16 + 8 * (uint64_t) (e + 1) <= ic->plen; ++e) { uint64_t off; memcpy(&off, ic->payload + 16 + 8 * e, 8); if (!off) has_omitted[s] = 1; }
+                    }
+                    if (has_omitted[s] && (du.h_len[s] != dc.h_len[s] || du.h_samples[s] != dc.h_samples[s] || du.h_stats[s] != dc.h_stats[s])) any_omitted = 1;
+                }
+                jd_free(&sd);
+            }
+        }
+        dump_compare_skip_fsr(has_omitted);
+        dump_compare(&du, &dc, "C17", "closed", "source vs copy");
+        dump_compare_skip_fsr(NULL);
+        if (any_omitted) v_violation("C17", "closed|omitted-blocks-copied-as-gaps", NULL, "a signal with omitted level-0 blocks reads back differently from the copy (length %s)", "samples or statistics");
+        decode_and_compare(cp, NULL, "C05", "copy", 0);
+    }
+    v_count("C17", "copies_compared", 1);
+    if (!getenv("VERIF_KEEP")) unlink(cp);
+}
+
 static int files_identical(const char *a, const char *b, size_t *first_diff) {
     jd_t x, y;
     if (jd_load(&x, a)) return -1;
@@ -509,7 +552,7 @@ static int files_identical(const char *a, const char *b, size_t *first_diff) {
 
 static void case_c13(rng_t *r, ctx_t *c) {
     prog_t p; prog_init(&p);
-    int big = c->thorough ? rng_chance(r, 1, 8) : rng_chance(r, 1, 25);
+    int big = c->thorough ? rng_chance(r, 1, 8) : rng_chance(r, 1, 10);
     /* sources in random order, random ids */
     int nsrc = (int) rng_range(r, 1, 6);
     uint16_t src_ids[8]; int src_n = 0;
@@ -530,7 +573,8 @@ static void case_c13(rng_t *r, ctx_t *c) {
         for (int q = 0; q < 5; ++q) {
             free(ps->s[q]);
             int cls = (int) rng_below(r, 5);
-            if (big && q == 0 && i == 0) cls = 5 + (int) rng_below(r, 2);
+            if (big && q == 0 && i == 0) cls = 5 + (int) rng_below(r, 3);      /* 64 KiB, 300-600 KB, > 1 MiB (rejected) */
+            if (big && q == 1 && i == 0 && strmax == 6) cls = 6;               /* two long strings: their sum may pass 1 MiB */
             if (cls > strmax) strmax = cls;
             ps->s[q] = make_string(r, cls, NULL);
         }
@@ -579,8 +623,9 @@ static void case_c13(rng_t *r, ctx_t *c) {
         if (rng_chance(r, 1, 6)) o->meta |= (uint16_t) (rng_below(r, 16) << 12);   /* reserved bits set: masked */
         o->stype = (uint8_t) rng_range(r, 1, 3);
         int scls = (int) rng_below(r, 5);
-        if (big && i == 0) scls = 5 + (int) rng_below(r, 5);
-        static const uint32_t sz[] = {0, 1, 17, 4096, 70000, (1 << 20) - 1, 1 << 20, (1 << 20) + 1, 3 << 20, (1 << 20) - 20};
+        if (big && i < 2) scls = 5 + (int) rng_below(r, 12);
+        static const uint32_t sz[] = {0, 1, 17, 4096, 70000, (1 << 20) - 1, 1 << 20, (1 << 20) + 1, 3 << 20, (1 << 20) - 20,
+                                      (1 << 20) - 3, (1 << 20) - 4, (1 << 20) - 11, (1 << 20) - 12, (2 << 20) - 1, (2 << 20) - 5, 2 << 20};
         o->dsize = sz[scls];
         if (scls > usermax) usermax = scls;
         if (o->stype != JLS_STORAGE_TYPE_BINARY && o->dsize == 0) o->dsize = 1;
@@ -672,9 +717,17 @@ static void case_c13(rng_t *r, ctx_t *c) {
         for (size_t i = 0; i < p.n; ++i) {
             uint64_t w0 = g_io.n_write;
             op_t *o = &p.ops[i];
+            /* a signal may only be accepted while its source is defined *as the writer reported it*: a source
+             * definition that returned an error (e.g. a 1 MiB string) defines nothing */
+            int src_known = 1; unsigned src_id = 0;
+            if (o->kind == OP_SIGNAL) { src_id = p.sig[o->def].def.source_id; src_known = src_id < 256 && m.src_defined[src_id]; }
             /* FSR data for a defined signal needs the right psig; exec_op_sync looks it up by id */
             exec_op_sync(wr, &p, o);
             model_apply(&m, i);
+            if (o->kind == OP_SIGNAL && o->rc == 0 && !src_known) {
+                v_violation("C13", "accepted|signal-naming-undefined-source", NULL, "signal %u accepted although its source %u was never accepted by the writer", o->id, src_id);
+                accepted_but_expected_reject++;
+            }
             if (o->expect_reject) {
                 char key[96];
                 static const char *kn[] = {"", "source", "signal", "fsr", "omit", "annotation", "utc", "user"};
@@ -722,6 +775,8 @@ static void case_c13(rng_t *r, ctx_t *c) {
         }
         unlink(path2);
     }
+    /* C17 on files with long strings and payloads around the 1 MiB / 2 MiB buffer sizes */
+    if (!rc) { copy_check(path, r); v_feature("C17", 1, "closed|defs|usermax=%d|strmax=%d", usermax, strmax); }
     model_free(&m); prog_free(&p);
     free(defs); free(sigdefs); free(ldef.ops); free(ldata.ops); free(luser.ops); free(lrej.ops);
     for (int i = 0; i < 8; ++i) free(per[i].ops);
@@ -936,48 +991,10 @@ static void case_mix(rng_t *r, ctx_t *c) {
     if (h0 != h1 || sz0 != sz1) v_violation("C19", "closed-file|bytes-changed", NULL, "file bytes changed while reading (size %zu -> %zu)", sz0, sz1);
     v_count("C19", "closed_files_read", 1);
     v_feature("C19", chunks > 12, "closed|%s|levels=%d", feat, levels);
-    /* C17: copy */
-    const char *cp = v_path("mix-copy.jls");
-    v_api("jls_copy");
-    int32_t rc = jls_copy(path, cp, NULL, NULL, NULL, NULL);
-    v_api("");
-    char key[96];
-    if (rc) { snprintf(key, sizeof(key), "copy-error|rc=%d|closed", rc); v_violation("C17", key, NULL, "jls_copy of a readable closed file returned %d", rc); }
-    else {
-        decode_and_compare(cp, NULL, "C17", "copy", 0);
-        dump_t dc; uint64_t ds = rng_u64(r);
-        dump_file(path, &du, ds); dump_file(cp, &dc, ds);
-        /* signals with omitted blocks in the source: jls_copy re-writes those blocks as gaps (known finding,
-         * reported once per file under its own key); every other signal is compared in full */
-        uint8_t has_omitted[256]; memset(has_omitted, 0, sizeof(has_omitted));
-        int any_omitted = 0;
-        {
-            jd_t sd;
-            if (!jd_load(&sd, path)) {
-                jd_decode(&sd);
-                for (int s = 1; s < 256; ++s) {
-                    const jd_list_t *il = &sd.sig[s].index[JD_TT_FSR][1];
-                    for (size_t k = 0; k < il->n; ++k) {
-                        const jd_chunk_t *ic = &sd.ch[il->idx[k]];
-                        if (ic->plen < 16) continue;
-                        uint32_t cnt; memcpy(&cnt, ic->payload + 8, 4);
-                        for (uint32_t e = 0; e < cnt && 16 + 8 * (uint64_t) (e + 1) <= ic->plen; ++e) { uint64_t off; memcpy(&off, ic->payload + 16 + 8 * e, 8); if (!off) has_omitted[s] = 1; }
-                    }
-                    if (has_omitted[s] && (du.h_len[s] != dc.h_len[s] || du.h_samples[s] != dc.h_samples[s] || du.h_stats[s] != dc.h_stats[s])) any_omitted = 1;
-                }
-                jd_free(&sd);
-            }
-        }
-        dump_compare_skip_fsr(has_omitted);
-        dump_compare(&du, &dc, "C17", "closed", "source vs copy");
-        dump_compare_skip_fsr(NULL);
-        if (any_omitted) v_violation("C17", "closed|omitted-blocks-copied-as-gaps", NULL, "a signal with omitted level-0 blocks reads back differently from the copy (length %s)", "samples or statistics");
-        decode_and_compare(cp, NULL, "C05", "copy", 0);
-    }
+    copy_check(path, r);
     int omit_used = 0; for (int s = 1; s < 256; ++s) if (m.sig[s].omit_ever) omit_used = 1;
     v_feature("C17", chunks > 12, "closed|%s|levels=%d|omit=%d", feat, levels, omit_used);
-    v_count("C17", "copies_compared", 1);
-    if (!getenv("VERIF_KEEP")) { unlink(cp); unlink(path); }
+    if (!getenv("VERIF_KEEP")) unlink(path);
     model_free(&m); prog_free(&p);
 }
 
